@@ -51,6 +51,11 @@ def cases_for(ctx):
             hasiv = rng.choice([0, 1])
             i0 = rng.randint(0, 8)
             cases.append({"kind": "project", "f": t, "s": s, "o": o, "hasiv": hasiv, "iv": [i0, i0 + rng.randint(0, 6)], "shape": nc + 1})
+            # a valid saved position: every skipped element lies below the interval, in old coordinates (the library's precondition) and in new ones
+            if s > 0 and t["e"]:
+                i1 = rng.randint(0, 8)
+                sps = [k for k in range(len(t["e"])) if k == 0 or (t["e"][k - 1][0] < i1 and s * t["e"][k - 1][0] + o < i1)]
+                cases.append({"kind": "project", "f": t, "s": s, "o": o, "hasiv": 1, "iv": [i1, i1 + rng.randint(0, 6)], "shape": nc + 1, "sp": rng.choice(sps)})
             cases.append({"kind": "prune", "f": t, "pred": rng.choice(["evencoord", "bigval", "evenpos", "all"]), "shape": nc + 1})
     # the same traversals over fibers whose rank default is 2 (a stored 2 is the explicit default, a stored 0 is content)
     for c in list(cases):
@@ -82,7 +87,7 @@ def run(ctx):
                    "implementation; all 256 fibers over 4 coordinates with values {absent,0,1,2} are used with sampled parameters (the design-level TLC run "
                    "covers the whole parameter product for iterRange), plus seeded random 10-coordinate fibers; non-trivial = the fiber stores an element",
            "assumptions": ["a start position is valid when every element before it lies before the range start (position 0 always)",
-                           "affine monotone transforms s*c+o with s in {1,2,3,-1,-2,-3}", "project(start_pos=...) is not exercised (its precondition mixes old and new coordinates)"],
+                           "affine monotone transforms s*c+o with s in {1,2,3,-1,-2,-3}", "project(start_pos=...) is exercised with positions that are valid in old and in new coordinates (the library's precondition compares old coordinates with the new interval)"],
            "scope": {"fibers": 256, "random_fibers": 200 if ctx.quick else 4000}}
     return family.merge(res, part)
 
